@@ -78,9 +78,9 @@ class State:
                 g = Frame(f.fn); g.regs = dict(f.regs); g.block = f.block; g.prev = f.prev; g.ip = f.ip; g.ret_to = f.ret_to; g.allocas = list(f.allocas)
                 ns.append(g)
             n.ctx[k] = (ns, link)
-        if hasattr(s, 'errno'): n.errno = s.errno
-        if hasattr(s, 'now'): n.now = s.now
-        if hasattr(s, 'inflight'): n.inflight = s.inflight
+        for k, v in s.__dict__.items():       # model-private extras (errno cell, virtual clock, stream registry, ...)
+            if k not in n.__dict__ and k not in ('pc', 'exc', 'caught', 'trace', 'steps'):
+                n.__dict__[k] = dict(v) if isinstance(v, dict) else list(v) if isinstance(v, list) else set(v) if isinstance(v, set) else v
         n.nd_log = list(s.nd_log); n.notes = list(s.notes)
         n.mdl = getattr(s, 'mdl', None); n.mdl_n = getattr(s, 'mdl_n', -1); n.mdl_alt = getattr(s, 'mdl_alt', None); n.mdl_alt_n = getattr(s, 'mdl_alt_n', -1)
         n.pc = list(s.pc); n.exc = s.exc; n.caught = list(s.caught); n.trace = list(s.trace); n.steps = s.steps
@@ -99,7 +99,7 @@ class Engine:
         s.stats = {'paths': 0, 'forks': 0, 'solver_calls': 0, 'solver_time': 0.0, 'instrs': 0}
         s.nsym = 0
         s.violations = []
-        s.fn_seen = set(); s.models_used = set()
+        s.fn_seen = set(); s.models_used = set(); s.fork_sites = {}; s.max_fork_width = 4096
         s.max_steps = 2000000; s.max_paths = 200000; s.deadline = time.time() + 3600; s.sample = None; s.reached = set()
         s.races = {}; s.racy_points = set()
         s.all_syms = []
@@ -156,6 +156,8 @@ class Engine:
         else: st.mdl = None; st.mdl_n = -1
         st.mdl_alt = None; st.mdl_alt_n = -1
     def model(s, st, extra=None):
+        if extra is None and getattr(st, 'mdl', None) is not None and getattr(st, 'mdl_n', -1) == len(st.pc):
+            return st.mdl
         s.sync_solver(st)
         s.solver.push()
         if extra is not None: s.solver.add(extra)
@@ -195,12 +197,94 @@ class Engine:
         if s.feasible(st, v != c):
             raise ForkOn(v == c)
         return c
+    SYM_LOAD_MAX = 4096; SYM_STORE_MAX = 96
+    def resolve_sym(s, st, addr, n, what):
+        """symbolic address: single-object resolution. The access must be inside ONE object for every model of the path
+        condition, otherwise an out-of-bounds access is feasible -> violation (with the witness added to the path)."""
+        mdl = s.model(st)
+        if mdl is None: raise PathEnd()
+        c = mdl.eval(addr, model_completion=True).as_long()
+        o = s.find_obj(st, c) if c else None
+        if c == 0 or o is None or c + n > o[0] + o[1]:
+            s.add_pc(st, addr == c)
+            raise Violation('%s out of bounds through symbolic address (e.g. 0x%x)' % (what, c))
+        base, size, kind, alive = o
+        off = z3.simplify(addr - base)
+        oob = z3.UGT(off, size - n)
+        if s.feasible(st, oob):
+            # the pointer may also denote ANOTHER object (e.g. select between two objects): fork on the object, not a violation
+            m2 = s.model(st, oob)
+            c2 = m2.eval(addr, model_completion=True).as_long() if m2 is not None else 0
+            o2 = s.find_obj(st, c2) if c2 else None
+            if o2 is not None and o2[0] != base and c2 + n <= o2[0] + o2[1]:
+                raise ForkOn(addr == c)          # pin the pointer to one concrete value per path (pointers are usually an ite of few addresses)
+            s.add_pc(st, oob)
+            raise Violation('%s out of bounds: symbolic offset can leave the %d-byte %s object' % (what, size, kind))
+        if not alive: raise Violation('%s of freed object (use after free)' % what)
+        return base, size, kind, off
+    def try_pin(s, st, addr):
+        """a symbolic address that has exactly one feasible value under the path condition is used as that concrete address"""
+        mdl = s.model(st)
+        if mdl is None: raise PathEnd()
+        c = mdl.eval(addr, model_completion=True).as_long()
+        if not s.feasible(st, addr != c): return c
+        return addr
     def load_bytes(s, st, addr, n):
-        addr = s.concretize(st, addr)
+        if is_sym(addr):
+            addr = z3.simplify(addr)
+            if z3.is_bv_value(addr): addr = addr.as_long()
+        if is_sym(addr): addr = s.try_pin(st, addr)
+        if is_sym(addr):
+            base, size, kind, off = s.resolve_sym(st, addr, n, 'read')
+            if size > s.SYM_LOAD_MAX: addr = s.concretize(st, addr)
+            else:
+                stride = 1
+                if n > 1 and size % n == 0 and not s.feasible(st, z3.URem(off, n) != 0): stride = n
+                ks = list(range(0, size - n + 1, stride))
+                cells = [[st.mem.get(base + k + i, UNDEF) for i in range(n)] for k in ks]
+                if any(b is UNDEF for row in cells for b in row):
+                    # some candidate byte is uninitialised: only offsets that are feasible matter
+                    ks2 = []; cells2 = []
+                    for k, row in zip(ks, cells):
+                        if any(b is UNDEF for b in row):
+                            if s.feasible(st, off == k):
+                                s.add_pc(st, off == k); raise Violation('read of uninitialised memory through symbolic address')
+                            continue
+                        ks2.append(k); cells2.append(row)
+                    ks, cells = ks2, cells2
+                    if not ks: raise PathEnd()
+                out = []
+                for i in range(n):
+                    e = s.bv(cells[-1][i], 8)
+                    for k, row in zip(reversed(ks[:-1]), reversed(cells[:-1])):
+                        e = z3.If(off == k, s.bv(row[i], 8), e)
+                    out.append(z3.simplify(e))
+                s.stats['sym_loads'] = s.stats.get('sym_loads', 0) + 1
+                return out
         s.check_access(st, addr, n, 'read')
         return [st.mem.get(addr + i, UNDEF) for i in range(n)]
     def store_bytes(s, st, addr, bs):
-        addr = s.concretize(st, addr)
+        if is_sym(addr):
+            addr = z3.simplify(addr)
+            if z3.is_bv_value(addr): addr = addr.as_long()
+        if is_sym(addr): addr = s.try_pin(st, addr)
+        if is_sym(addr):
+            n = len(bs)
+            base, size, kind, off = s.resolve_sym(st, addr, n, 'write')
+            if kind == 'const': raise Violation('write to constant object')
+            if size > s.SYM_STORE_MAX or any(b is UNDEF for b in bs): addr = s.concretize(st, addr)
+            else:
+                for k in range(0, size - n + 1):
+                    for i in range(n):
+                        old = st.mem.get(base + k + i, UNDEF)
+                        if old is UNDEF:
+                            if not s.feasible(st, off == k): continue            # this cell cannot be the target: stays uninitialised
+                            if s.feasible(st, off != k): raise ForkOn(off == k)   # may or may not be the target: decide by forking
+                            st.mem[base + k + i] = bs[i]
+                        else:
+                            st.mem[base + k + i] = z3.simplify(z3.If(off == k, s.bv(bs[i], 8), s.bv(old, 8)))
+                s.stats['sym_stores'] = s.stats.get('sym_stores', 0) + 1
+                return
         s.check_access(st, addr, len(bs), 'write')
         o = s.find_obj(st, addr)
         if o[2] == 'const': raise Violation('write to constant object')
@@ -604,9 +688,14 @@ class Engine:
             except ForkOn as fo:
                 # a symbolic address/size has several feasible values: fork on (expr == value) and retry the instruction
                 fr.ip -= 1
-                other = st.fork(); s.add_pc(other, z3.Not(fo.cond)); s.add_pc(st, fo.cond)
                 if work is None: raise Unsupported('fork inside helper run')
-                work.append(other); s.stats['forks'] += 1
+                f1 = s.feasible(st, fo.cond); f0 = s.feasible(st, z3.Not(fo.cond))
+                if f1 and f0:
+                    other = st.fork(); s.add_pc(other, z3.Not(fo.cond)); s.add_pc(st, fo.cond)
+                    work.append(other); s.stats['forks'] += 1
+                elif f1: s.add_pc(st, fo.cond)
+                elif f0: s.add_pc(st, z3.Not(fo.cond))
+                else: raise PathEnd()
 
     def unwind(s, st, depth):
         # pop frames until one sits on an invoke
@@ -640,21 +729,21 @@ class Engine:
     def typeid(s, name):
         return (s.gaddr.get(name, 0) or abs(hash(name))) & 0x7fffffff
     def exc_matches(s, st, thrown, catch_name):
-        # thrown: address of typeinfo object (int) or ('std', kind)
+        """does a handler for typeinfo `catch_name` catch an exception of dynamic type `thrown` (typeinfo address or ('std', kind))?
+        Walks the single-inheritance __si_class_type_info chain of module-defined typeinfos; libstdc++'s own hierarchy comes from a table."""
         if isinstance(thrown, tuple):
             return catch_name in STD_EXC_BASES.get(thrown[1], ())
         ca = s.gaddr.get(catch_name)
+        if not hasattr(s, 'addr2ti'): s.addr2ti = {a: nm for nm, a in s.gaddr.items() if nm.startswith('@_ZTI')}
         t = thrown
-        for _ in range(8):
+        for _ in range(12):
             if t == ca: return True
-            # __si_class_type_info: { vptr, name, base }
+            nm = s.addr2ti.get(t)
+            if nm in STD_TI_BASES: return catch_name in STD_TI_BASES[nm]
             o = s.find_obj(st, t)
             if o is None or o[1] < 24: break
             t = s.from_bytes([st.mem.get(t + 16 + i, 0) for i in range(8)])
             if not isinstance(t, int) or t == 0: break
-        # external std bases
-        for nm, a in s.gaddr.items():
-            if a == thrown: break
         return False
 
     def jump(s, st, fr, label):
@@ -838,8 +927,7 @@ class Engine:
             except NeedFork as nf:
                 # a model met a symbolic comparison that can go both ways: fork *before* the call and retry it
                 other = snap.fork()
-                for k in ('mem', 'objs', 'bases', 'next_base', 'threads', 'cur', 'preempt', 'cv', 'sched_log', 'er', 'ctx', 'pc', 'exc', 'caught', 'trace', 'steps', 'nd_log', 'notes', 'mdl', 'mdl_n', 'mdl_alt', 'mdl_alt_n'):
-                    setattr(st, k, getattr(snap, k))
+                st.__dict__.clear(); st.__dict__.update(snap.__dict__)
                 st.stack[-1].ip -= 1; other.stack[-1].ip -= 1
                 s.add_pc(st, nf.cond); s.add_pc(other, z3.Not(nf.cond))
                 if work is None: raise Unsupported('fork inside helper run')
@@ -935,6 +1023,15 @@ STD_EXC_BASES = {
     'logic_error': ('@_ZTISt11logic_error', '@_ZTISt9exception'),
     'bad_alloc': ('@_ZTISt9bad_alloc', '@_ZTISt9exception'),
 }
+_LE = ('@_ZTISt11logic_error', '@_ZTISt9exception'); _RE = ('@_ZTISt13runtime_error', '@_ZTISt9exception')
+STD_TI_BASES = {
+    '@_ZTISt12out_of_range': ('@_ZTISt12out_of_range',) + _LE, '@_ZTISt16invalid_argument': ('@_ZTISt16invalid_argument',) + _LE,
+    '@_ZTISt12length_error': ('@_ZTISt12length_error',) + _LE, '@_ZTISt12domain_error': ('@_ZTISt12domain_error',) + _LE,
+    '@_ZTISt11logic_error': _LE, '@_ZTISt13runtime_error': _RE, '@_ZTISt11range_error': ('@_ZTISt11range_error',) + _RE,
+    '@_ZTISt14overflow_error': ('@_ZTISt14overflow_error',) + _RE, '@_ZTISt15underflow_error': ('@_ZTISt15underflow_error',) + _RE,
+    '@_ZTISt9bad_alloc': ('@_ZTISt9bad_alloc', '@_ZTISt9exception'), '@_ZTISt9exception': ('@_ZTISt9exception',),
+    '@_ZTISt17bad_function_call': ('@_ZTISt17bad_function_call', '@_ZTISt9exception'), '@_ZTISt8bad_cast': ('@_ZTISt8bad_cast', '@_ZTISt9exception'),
+}
 def throw_std(kind):
     def f(e, st, args):
         st.exc = (0, ('std', kind)); st.exc_where = [f.fn.name for f in st.stack][-4:]; return None
@@ -961,11 +1058,13 @@ class Str:
         s.e.store(s.st, s.a, TInt(64), s.a + 16); s.e.store(s.st, s.a + 8, TInt(64), 0); s.e.store_bytes(s.st, s.a + 16, [0])
 
 def conc_eq(e, st, b, c):
-    """is byte b equal to concrete c?  forks are not possible inside models -> require decidable"""
-    if b is UNDEF: raise Violation('uninitialised byte read by string operation')
-    if not is_sym(b): return b == c
-    t = e.feasible(st, b == c); f = e.feasible(st, b != c)
-    if t and f: raise NeedFork(b == c)
+    """is byte b equal to c (either may be symbolic)?  Both outcomes feasible -> NeedFork (the engine forks before the call)."""
+    if b is UNDEF or c is UNDEF: raise Violation('uninitialised byte read by string operation')
+    if not is_sym(b) and not is_sym(c): return (b & 0xff) == (c & 0xff)
+    x = e.bv(b, 8) if not is_sym(b) or b.size() == 8 else z3.Extract(7, 0, b)
+    y = e.bv(c & 0xff, 8) if not is_sym(c) else (c if c.size() == 8 else z3.Extract(7, 0, c))
+    t = e.feasible(st, x == y); f = e.feasible(st, x != y)
+    if t and f: raise NeedFork(x == y)
     return t
 class ForkOn(Exception):
     def __init__(s, cond): s.cond = cond
@@ -978,6 +1077,8 @@ def m_malloc(e, st, args):
     n = e.concretize(st, args[0]); return e.alloc(st, max(n, 1), 'heap')
 def m_free(e, st, args):
     a = args[0]
+    if a is UNDEF: raise Violation('free of uninitialised pointer')
+    a = e.concretize(st, a)
     if a == 0: return None
     o = st.objs.get(a)
     if o is None or o[1] != 'heap': raise Violation('free of non-heap pointer 0x%x' % a)
@@ -986,7 +1087,6 @@ def m_free(e, st, args):
 def m_find_c(e, st, args):
     s_ = Str(e, st, args[0]); c = args[1]; pos = e.concretize(st, args[2]); bs = s_.bytes()
     for i in range(pos, len(bs)):
-        if is_sym(c): raise Unsupported('symbolic needle')
         if conc_eq(e, st, bs[i], c): return i
     return NPOS
 def m_find_s(e, st, args):
@@ -1273,6 +1373,191 @@ def m_gettimeofday(e, st, args):
     if last is not None: e.add_pc(st, z3.UGE(sec, last))
     st.last_sec = sec
     e.store(st, tv, I64, sec); e.store(st, tv + 8, I64, usec); return 0
+# ---------------- <cctype> (C locale) ----------------
+def _rng(x, lo, hi): return z3.And(x >= lo, x <= hi)        # signed 32-bit compare: negative (char >= 0x80) arguments classify as "no"
+_CT = {
+    'isprint': lambda x: _rng(x, 0x20, 0x7e), 'isgraph': lambda x: _rng(x, 0x21, 0x7e), 'isdigit': lambda x: _rng(x, 48, 57),
+    'isspace': lambda x: z3.Or(_rng(x, 9, 13), x == 32), 'isupper': lambda x: _rng(x, 65, 90), 'islower': lambda x: _rng(x, 97, 122),
+    'isalpha': lambda x: z3.Or(_rng(x, 65, 90), _rng(x, 97, 122)), 'isalnum': lambda x: z3.Or(_rng(x, 65, 90), _rng(x, 97, 122), _rng(x, 48, 57)),
+    'isxdigit': lambda x: z3.Or(_rng(x, 48, 57), _rng(x, 65, 70), _rng(x, 97, 102)), 'iscntrl': lambda x: z3.Or(_rng(x, 0, 31), x == 127),
+    'ispunct': lambda x: z3.Or(_rng(x, 33, 47), _rng(x, 58, 64), _rng(x, 91, 96), _rng(x, 123, 126)), 'isblank': lambda x: z3.Or(x == 9, x == 32),
+}
+def ctype_model(name):
+    pred = _CT[name]
+    def f(e, st, args):
+        x = args[0]
+        if x is UNDEF: raise Violation('uninitialised value passed to %s' % name)
+        c = z3.simplify(pred(e.bv(x, 32)))
+        if z3.is_true(c): return 1
+        if z3.is_false(c): return 0
+        return z3.If(c, z3.BitVecVal(1, 32), z3.BitVecVal(0, 32))
+    return f
+def m_toupper(e, st, args):
+    x = e.bv(args[0], 32); r = z3.simplify(z3.If(_rng(x, 97, 122), x - 32, x)); return r.as_long() if z3.is_bv_value(r) else r
+def m_tolower(e, st, args):
+    x = e.bv(args[0], 32); r = z3.simplify(z3.If(_rng(x, 65, 90), x + 32, x)); return r.as_long() if z3.is_bv_value(r) else r
+BUILTIN_MODELS.update({k: ctype_model(k) for k in _CT}); BUILTIN_MODELS.update({'toupper': m_toupper, 'tolower': m_tolower})
+# ---------------- more std::string members (libstdc++ cxx11 ABI, out-of-line in libstdc++.so) ----------------
+_SP = '_ZNSt7__cxx1112basic_stringIcSt11char_traitsIcESaIcEE'; _SK = '_ZNKSt7__cxx1112basic_stringIcSt11char_traitsIcESaIcEE'
+def _in_set(e, st, b, pat):
+    for c in pat:
+        if conc_eq(e, st, b, c): return True
+    return False
+def m_find_first_of(e, st, args):
+    s_ = Str(e, st, args[0]); pos = e.concretize(st, args[2]); n = e.concretize(st, args[3]); bs = s_.bytes(); pat = e.load_bytes(st, args[1], n) if n else []
+    for i in range(pos, len(bs)):
+        if _in_set(e, st, bs[i], pat): return i
+    return NPOS
+def m_find_first_not_of(e, st, args):
+    s_ = Str(e, st, args[0]); pos = e.concretize(st, args[2]); n = e.concretize(st, args[3]); bs = s_.bytes(); pat = e.load_bytes(st, args[1], n) if n else []
+    for i in range(pos, len(bs)):
+        if not _in_set(e, st, bs[i], pat): return i
+    return NPOS
+def m_find_last_not_of(e, st, args):
+    s_ = Str(e, st, args[0]); pos = e.concretize(st, args[2]); n = e.concretize(st, args[3]); bs = s_.bytes(); pat = e.load_bytes(st, args[1], n) if n else []
+    if not bs: return NPOS
+    i = min(pos, len(bs) - 1)
+    while i >= 0:
+        if not _in_set(e, st, bs[i], pat): return i
+        i -= 1
+    return NPOS
+def m_find_last_of(e, st, args):
+    s_ = Str(e, st, args[0]); pos = e.concretize(st, args[2]); n = e.concretize(st, args[3]); bs = s_.bytes(); pat = e.load_bytes(st, args[1], n) if n else []
+    if not bs: return NPOS
+    i = min(pos, len(bs) - 1)
+    while i >= 0:
+        if _in_set(e, st, bs[i], pat): return i
+        i -= 1
+    return NPOS
+def m_rfind_c(e, st, args):
+    s_ = Str(e, st, args[0]); c = args[1]; pos = e.concretize(st, args[2]); bs = s_.bytes()
+    if not bs: return NPOS
+    i = min(pos, len(bs) - 1)
+    while i >= 0:
+        if conc_eq(e, st, bs[i], c): return i
+        i -= 1
+    return NPOS
+def m_rfind_s(e, st, args):
+    s_ = Str(e, st, args[0]); pos = e.concretize(st, args[2]); n = e.concretize(st, args[3]); bs = s_.bytes(); pat = e.load_bytes(st, args[1], n) if n else []
+    if n > len(bs): return NPOS
+    i = min(pos, len(bs) - n)
+    while i >= 0:
+        if all(conc_eq(e, st, bs[i + k], pat[k]) for k in range(n)): return i
+        i -= 1
+    return NPOS
+def _str_replace(e, st, self, pos, n1, new):
+    s_ = Str(e, st, self); ln = s_.len
+    if pos > ln: st.exc = (0, ('std', 'out_of_range')); st.exc_where = [f.fn.name for f in st.stack][-4:]; return None
+    n1 = min(n1, ln - pos); bs = s_.bytes()
+    s_.set(bs[:pos] + list(new) + bs[pos + n1:]); return self
+def m_replace(e, st, args):       # _M_replace(pos, len1, s, len2)
+    pos, n1, n2 = e.concretize(st, args[1]), e.concretize(st, args[2]), e.concretize(st, args[4])
+    new = e.load_bytes(st, args[3], n2) if n2 else []
+    return _str_replace(e, st, args[0], pos, n1, new)
+def m_replace_aux(e, st, args):   # _M_replace_aux(pos, n1, n2, c)
+    pos, n1, n2 = e.concretize(st, args[1]), e.concretize(st, args[2]), e.concretize(st, args[3])
+    c = args[4] if not is_sym(args[4]) else z3.Extract(7, 0, args[4]) if args[4].size() > 8 else args[4]
+    if not is_sym(c): c &= 0xff
+    return _str_replace(e, st, args[0], pos, n1, [c] * n2)
+def m_erase(e, st, args):         # _M_erase(pos, n)
+    s_ = Str(e, st, args[0]); pos, n = e.concretize(st, args[1]), e.concretize(st, args[2]); bs = s_.bytes()
+    s_.set(bs[:pos] + bs[pos + n:]); return None
+def m_append(e, st, args):        # _M_append(s, n)
+    s_ = Str(e, st, args[0]); n = e.concretize(st, args[2]); new = e.load_bytes(st, args[1], n) if n else []
+    s_.set(s_.bytes() + new); return args[0]
+def m_construct_nc(e, st, args):  # _M_construct(n, c)
+    s_ = Str(e, st, args[0]); n = e.concretize(st, args[1]); c = args[2]
+    if not is_sym(c): c &= 0xff
+    s_.init_empty(); s_.set([c] * n); return None
+def m_str_ctor_cstr(e, st, args): # basic_string(const char*, const allocator&)
+    if args[1] == 0: st.exc = (0, ('std', 'logic_error')); st.exc_where = [f.fn.name for f in st.stack][-4:]; return None
+    s_ = Str(e, st, args[0]); s_.init_empty(); s_.set(cstr(e, st, args[1])); return None
+def m_str_dtor(e, st, args):
+    s_ = Str(e, st, args[0])
+    if s_.p != s_.a + 16: m_free(e, st, [s_.p])
+    return None
+def m_compare_ss(e, st, args):
+    return cmp_bytes(e, st, Str(e, st, args[0]).bytes(), Str(e, st, args[1]).bytes())
+def m_compare_pos_s(e, st, args):  # compare(pos, n, const string&)
+    s_ = Str(e, st, args[0]); pos = e.concretize(st, args[1]); n = e.concretize(st, args[2])
+    if pos > s_.len: st.exc = (0, ('std', 'out_of_range')); return None
+    return cmp_bytes(e, st, s_.bytes()[pos:pos + n], Str(e, st, args[3]).bytes())
+def m_strlen(e, st, args): return len(cstr(e, st, args[0]))
+def m_resize(e, st, args):
+    s_ = Str(e, st, args[0]); n = e.concretize(st, args[1]); c = args[2]; bs = s_.bytes()
+    if not is_sym(c): c &= 0xff
+    s_.set(bs[:n] + [c] * max(0, n - len(bs))); return None
+BUILTIN_MODELS.update({
+    _SK + '13find_first_ofEPKcmm': m_find_first_of, _SK + '17find_first_not_ofEPKcmm': m_find_first_not_of, _SK + '16find_last_not_ofEPKcmm': m_find_last_not_of,
+    _SK + '12find_last_ofEPKcmm': m_find_last_of, _SK + '5rfindEcm': m_rfind_c, _SK + '5rfindEPKcmm': m_rfind_s,
+    _SP + '10_M_replaceEmmPKcm': m_replace, _SP + '14_M_replace_auxEmmmc': m_replace_aux, _SP + '8_M_eraseEmm': m_erase, _SP + '9_M_appendEPKcm': m_append,
+    _SP + '12_M_constructEmc': m_construct_nc, _SP + 'C2EPKcRKS3_': m_str_ctor_cstr, _SP + 'C1EPKcRKS3_': m_str_ctor_cstr, _SP + 'D2Ev': m_str_dtor, _SP + 'D1Ev': m_str_dtor,
+    _SK + '7compareERKS4_': m_compare_ss, _SK + '7compareEmmRKS4_': m_compare_pos_s, _SP + '6resizeEmc': m_resize, 'strlen': m_strlen,
+})
+# ---------------- std::ostringstream / std::stringstream (output side) ----------------
+# The embedded std::stringbuf keeps its text in its own std::string (offset +72 inside the stringbuf); the model appends there and
+# maintains pbase/pptr/epptr so that the INLINE str() of libstdc++ 12 reads the right bytes. Formatting flags are ignored (decimal only).
+def _stream_sb(st, os_):
+    sb = getattr(st, 'streams', {}).get(os_)
+    if sb is None: raise Unsupported('operator<< on an unmodelled ostream object 0x%x' % os_)
+    return sb
+def _stream_put(e, st, os_, bs):
+    sb = _stream_sb(st, os_); s_ = Str(e, st, sb + 72)
+    s_.set(s_.bytes() + list(bs))
+    p = s_.p; e.store(st, sb + 40, I64, p); e.store(st, sb + 48, I64, p + s_.len); e.store(st, sb + 56, I64, p + s_.cap())
+    return os_
+def _fake_ctype(e, st):
+    if not hasattr(st, 'fake_ctype'):
+        a = e.alloc(st, 600, 'global'); e.store_bytes(st, a, [0] * 600); e.store_bytes(st, a + 56, [1]); e.store_bytes(st, a + 57, list(range(256))); st.fake_ctype = a
+    return st.fake_ctype
+def _stream_init(e, st, obj, size, os_off, sb_off, ios_off):
+    e.store_bytes(st, obj, [0] * size)
+    vt = e.alloc(st, 64, 'global'); e.store_bytes(st, vt, [0] * 64); e.store(st, vt, I64, ios_off - os_off)    # vbase offset at vptr[-3]
+    e.store(st, obj + os_off, I64, vt + 24)
+    if os_off: 
+        vt2 = e.alloc(st, 64, 'global'); e.store_bytes(st, vt2, [0] * 64); e.store(st, vt2, I64, ios_off); e.store(st, obj, I64, vt2 + 24)
+    Str(e, st, obj + sb_off + 72).init_empty()
+    e.store(st, obj + ios_off + 240, I64, _fake_ctype(e, st))       # basic_ios::_M_ctype (for widen('\n') in std::endl)
+    if not hasattr(st, 'streams'): st.streams = {}
+    st.streams = dict(st.streams); st.streams[obj + os_off] = obj + sb_off
+    return None
+def m_oss_ctor(e, st, args): return _stream_init(e, st, args[0], 376, 0, 8, 112)
+def m_ss_ctor(e, st, args): return _stream_init(e, st, args[0], 392, 16, 24, 128)
+def m_oss_dtor(e, st, args): m_str_dtor(e, st, [args[0] + 8 + 72]); return None
+def m_ss_dtor(e, st, args): m_str_dtor(e, st, [args[0] + 24 + 72]); return None
+def m_ostream_insert(e, st, args):
+    n = e.concretize(st, args[2]); return _stream_put(e, st, args[0], e.load_bytes(st, args[1], n) if n else [])
+def _fmt_int(bits, signed):
+    def f(e, st, args):
+        v = args[1]
+        if is_sym(v): v = e.concretize(st, v)
+        v &= (1 << bits) - 1
+        if signed and v >> (bits - 1): v -= 1 << bits
+        return _stream_put(e, st, args[0], list(str(v).encode()))
+    return f
+def m_os_put(e, st, args):
+    c = args[1]
+    if not is_sym(c): c &= 0xff
+    elif c.size() > 8: c = z3.Extract(7, 0, c)
+    return _stream_put(e, st, args[0], [c])
+BUILTIN_MODELS.update({
+    '_ZNSt7__cxx1119basic_ostringstreamIcSt11char_traitsIcESaIcEEC1Ev': m_oss_ctor, '_ZNSt7__cxx1119basic_ostringstreamIcSt11char_traitsIcESaIcEED1Ev': m_oss_dtor,
+    '_ZNSt7__cxx1118basic_stringstreamIcSt11char_traitsIcESaIcEEC1Ev': m_ss_ctor, '_ZNSt7__cxx1118basic_stringstreamIcSt11char_traitsIcESaIcEED1Ev': m_ss_dtor,
+    '_ZSt16__ostream_insertIcSt11char_traitsIcEERSt13basic_ostreamIT_T0_ES6_PKS3_l': m_ostream_insert,
+    '_ZNSolsEi': _fmt_int(32, True), '_ZNSolsEj': _fmt_int(32, False), '_ZNSo9_M_insertImEERSoT_': _fmt_int(64, False), '_ZNSo9_M_insertIlEERSoT_': _fmt_int(64, True),
+    '_ZNSolsEs': _fmt_int(16, True), '_ZNSolsEt': _fmt_int(16, False), '_ZNSo9_M_insertIbEERSoT_': _fmt_int(8, False),
+    '_ZNSo3putEc': m_os_put, '_ZNSo5flushEv': lambda e, st, a: a[0], '_ZNKSt5ctypeIcE13_M_widen_initEv': lambda e, st, a: None,
+    '_ZNSt8ios_baseD2Ev': lambda e, st, a: None, '_ZNSt6localeD1Ev': lambda e, st, a: None, '_ZNSt6localeC1Ev': lambda e, st, a: None,
+    '_ZNSt9basic_iosIcSt11char_traitsIcEE5clearESt12_Ios_Iostate': lambda e, st, a: None, '_ZSt16__throw_bad_castv': throw_std('bad_cast'),
+    '_ZSt25__throw_bad_function_callv': throw_std('bad_function_call'), '_ZSt9terminatev': lambda e, st, a: (_ for _ in ()).throw(Violation('std::terminate called')),
+    '__cxa_pure_virtual': lambda e, st, a: (_ for _ in ()).throw(Violation('pure virtual function called')),
+    '_ZNSt9exceptionD2Ev': lambda e, st, a: None, '_ZNSt13runtime_errorD1Ev': lambda e, st, a: None, '_ZNSt13runtime_errorD2Ev': lambda e, st, a: None,
+    '_ZNSt13runtime_errorC1EPKc': lambda e, st, a: None, '_ZNSt13runtime_errorC1ERKS_': lambda e, st, a: None,
+    '_ZNSt13runtime_errorC2ERKNSt7__cxx1112basic_stringIcSt11char_traitsIcESaIcEEE': lambda e, st, a: None, '_ZNSt13runtime_errorC2EPKc': lambda e, st, a: None,
+    '_ZNSt11logic_errorC1EPKc': lambda e, st, a: None, '_ZNSt11logic_errorD1Ev': lambda e, st, a: None, '_ZNSt11logic_errorC2EPKc': lambda e, st, a: None, '_ZNSt11logic_errorD2Ev': lambda e, st, a: None,
+    '_ZNSt16invalid_argumentC1EPKc': lambda e, st, a: None, '_ZNSt16invalid_argumentD1Ev': lambda e, st, a: None,
+})
+STD_EXC_BASES.update({'bad_cast': ('@_ZTISt8bad_cast', '@_ZTISt9exception'), 'bad_function_call': ('@_ZTISt17bad_function_call', '@_ZTISt9exception'), 'system_error': ('@_ZTISt12system_error', '@_ZTISt13runtime_error', '@_ZTISt9exception')})
 BUILTIN_MODELS.update({'gettimeofday': m_gettimeofday})
 BUILTIN_MODELS.update({'getcontext': m_getcontext, 'makecontext': m_makecontext, 'swapcontext': m_swapcontext})
 
